@@ -44,6 +44,7 @@ func checkC18(c *Ctx, r *Report) {
 	}
 
 	// R18b
+	intermediateMetaRule(c, r)
 	r.Rule("R18b", "source plumbing: MetaData stores the address of its Meta copy into options.meta; value constructors on normalize* paths receive opts.meta; error constructors pass their *Meta on towards messageMeta", 20)
 	metaDataRule(c, r)
 	metaReachesValues(c, r, "R18b")
@@ -541,5 +542,88 @@ func metaReachesMessages(c *Ctx, r *Report) {
 				r.Check(origin != "", "R18b", c.FnName(fn), fmt.Sprintf("meta arg%d of %s", i, f.Name()), c.Pos(ci.Pos()), "metadata argument comes from "+origin, "error constructor passes no real metadata here (sources: "+describeVals(Sources(a))+")")
 			}
 		}
+	}
+}
+
+// intermediateMetaRule (R18g): the nodes cfgPath.SetValue creates for the missing levels of a dotted key take
+// over the metadata of the value being stored, so that an error about such a level still names the file. For
+// every Config made with New() in the path writer there is an assignment of its metadata (direct store or
+// setMeta on its wrapper) whose value is meta() of a value that is not the new node itself.
+func intermediateMetaRule(c *Ctx, r *Report) {
+	r.Rule("R18g", "every intermediate node the path writer creates is given the metadata of the value being stored (not its own, not none)", 1)
+	fn := c.Method("", "cfgPath", "SetValue")
+	newFn := c.Func("", "New")
+	name := c.FnName(fn)
+	n := 0
+	for _, f := range c.Family(fn) {
+		for _, ci := range CallsTo(f, newFn, false) {
+			nc, ok := ci.(*ssa.Call)
+			if !ok {
+				continue
+			}
+			n++
+			isNew := func(v ssa.Value) bool {
+				if v == nil {
+					return false
+				}
+				for _, s := range Sources(v) {
+					if s == ssa.Value(nc) {
+						return true
+					}
+				}
+				return false
+			}
+			var metaVals []ssa.Value
+			Instrs(f, false, func(in ssa.Instruction) {
+				switch x := in.(type) {
+				case *ssa.Store:
+					if _, fld, ok := FieldOf(x.Addr); ok && fld == "metadata" {
+						if fa, ok := x.Addr.(*ssa.FieldAddr); ok && isNew(fa.X) {
+							metaVals = append(metaVals, x.Val)
+						}
+					}
+				case *ssa.Call:
+					if x.Call.IsInvoke() && x.Call.Method.Name() == "setMeta" && isNew(wrappedConfig(x.Call.Value)) {
+						metaVals = append(metaVals, x.Call.Args[0])
+					}
+					if g := x.Call.StaticCallee(); g != nil && g.Name() == "setMeta" && len(x.Call.Args) == 2 && isNew(wrappedConfig(x.Call.Args[0])) {
+						metaVals = append(metaVals, x.Call.Args[1])
+					}
+				}
+			})
+			bad := ""
+			if len(metaVals) == 0 {
+				bad = "the new node's metadata is never assigned"
+			}
+			for _, mv := range metaVals {
+				okSrc := false
+				for _, s := range Sources(mv) {
+					call, ok := s.(*ssa.Call)
+					if !ok {
+						continue
+					}
+					if call.Call.IsInvoke() && call.Call.Method.Name() == "meta" {
+						// a receiver that is a φ (the value carried round the loop: the node of the previous level, which got its
+						// metadata when it was created) is not this level's node
+						_, viaPhi := call.Call.Value.(*ssa.Phi)
+						if !viaPhi && isNew(wrappedConfig(call.Call.Value)) {
+							bad = "the metadata is read from the new node itself (it has none yet)"
+						} else {
+							okSrc = true
+						}
+					}
+				}
+				if IsLoadOfField(mv, "options", "meta") {
+					okSrc = true
+				}
+				if !okSrc && bad == "" {
+					bad = "the metadata assigned does not come from the value being stored (meta()) or the options"
+				}
+			}
+			r.Check(bad == "", "R18g", name, "intermediate node metadata", c.Pos(nc.Pos()), "metadata := meta() of the value being stored", "an intermediate node created for a dotted key gets no source: "+bad+" — errors about that level do not mention the file")
+		}
+	}
+	if n == 0 {
+		r.add("R18g", name, "intermediate node metadata", c.Pos(fn.Pos()), Undecided, true, "cfgPath.SetValue creates no node with New(): cannot tell how intermediate levels get their metadata")
 	}
 }
